@@ -31,6 +31,10 @@ type SimHooks struct {
 // Sim is the installed simulator; nil in normal operation.
 var Sim *SimHooks
 
+// SimSlowPaths counts HoldLockMaybeAsync calls that found the lock busy and deferred
+// their callback to a new goroutine (simulation only; reset by the harness per run).
+var SimSlowPaths int
+
 // Broadcast implements notifying waiters via a channel.
 //
 // The zero-value of this struct is valid.
@@ -133,6 +137,7 @@ func (c *Broadcast) HoldLockMaybeAsync(cb func(broadcast func(), getWaitCh func(
 			cb(c.broadcastLocked, c.getWaitChLocked)
 			return
 		}
+		SimSlowPaths++
 		go func() {
 			c.simLock(h, pc)
 			defer c.simUnlock()
